@@ -27,20 +27,20 @@ try:
         T.resolve_conflicts(tt)
         if tt.find_raw_conflicts():
             verdict(True, "resolve_conflicts returned although raw conflicts remain", observed=str(tt.find_raw_conflicts()))
-        # a pass function that never resolves anything: must end with MalformedTransform, not return
-        tt2 = wt.transform()
-        try:
-            tt2.new_file("dup2", tt2.root, [b"1\n"], b"id-3")
-            tt2.new_file("dup2", tt2.root, [b"2\n"], b"id-4")
-            try:
-                T.resolve_conflicts(tt2, pass_func=lambda t, c: set())
-                verdict(True, "resolve_conflicts returned with unresolved raw conflicts (useless pass function)")
-            except MalformedTransform:
-                pass
-        finally:
-            tt2.finalize()
     finally:
         tt.finalize()
+    # a pass function that never resolves anything: must end with MalformedTransform, not return
+    tt2 = wt.transform()
+    try:
+        tt2.new_file("dup2", tt2.root, [b"1\n"], b"id-3")
+        tt2.new_file("dup2", tt2.root, [b"2\n"], b"id-4")
+        try:
+            T.resolve_conflicts(tt2, pass_func=lambda t, c: set())
+            verdict(True, "resolve_conflicts returned with unresolved raw conflicts (useless pass function)")
+        except MalformedTransform:
+            pass
+    finally:
+        tt2.finalize()
     verdict(False, "no failing scenario")
 finally:
     shutil.rmtree(base, ignore_errors=True)
